@@ -205,6 +205,18 @@ def make_constraint_fun(ctx0, j, spec, shared=False):
             x[...] = -77.0
             ctx.fire("mutate-input")
         ctx.world.yield_point(ctx, "con.ret")
+        if ret in ("intlist", "intarray", "intscalar", "bool"):
+            # integer-valued replies handed back as Python ints / an integer array / booleans when they are integral
+            if all(math.isfinite(v) and float(v).is_integer() and abs(v) < 2 ** 52 for v in vals):
+                iv = [int(v) for v in vals]
+                if ret == "intlist":
+                    return iv
+                if ret == "intscalar" and len(iv) == 1:
+                    return iv[0]
+                if ret == "bool" and all(v in (0, 1) for v in iv):
+                    return np.array([bool(v) for v in iv])
+                return np.array(iv, dtype=np.int64)
+            return np.array(vals, dtype=float)
         if ret == "list":
             return list(vals)
         if ret == "tuple":
